@@ -2889,6 +2889,7 @@ func extractConditionValues(in []any) (c Condition, ok bool) {
 	} else {
 		c = Cond(word, op, in[3])
 	}
+	ok = c.IsInit()
 
 	return
 }
@@ -2922,7 +2923,9 @@ func marshalDefault(in []any) (x Stack, c Condition, err error) {
 		// the Operator and the last is the
 		// expression (value).  Convert this
 		// to a proper instance of Condition.
-		c, _ = extractConditionValues(in)
+		if c, ok = extractConditionValues(in); !ok {
+			err = errorf("Cannot unmarshal malformed condition")
+		}
 		return
 	case `LIST`, `AND`, `OR`, `NOT`, `BASIC`:
 		x = stackByWord(lab).Push(in[1:]...)
